@@ -9,7 +9,7 @@ import lib
 from lib import cbool, clist
 
 REQ = ("From Coq Require Import NArith List Bool.\nImport ListNotations.\n"
-       "From PV Require Import Gen.FileSelConst Cli.Glob Cli.FileSel Cli.FileSelRun.\nOpen Scope N_scope.")
+       "From PV Require Import Gen.FileSelConst Cli.Glob Cli.GlobX Cli.FileSel Cli.FileSelRun.\nOpen Scope N_scope.")
 PY_BODY = "def f(x):\n    if x:\n        return 1\n    return 2\n"
 
 
@@ -77,6 +77,17 @@ INCLUDES = [None, ["**/*.py"], ["*.py"], [], ["src/**"], ["src/**/*.py", "pkg/**
 EXCLUDES = [None, [], ["**/test_*.py"], ["test_*.py"], ["*_test.py"], ["**/tests/**"], ["tests/**"], ["sub/**"],
             ["**/migrations/**"], ["?.py"], ["a.py"], ["src/a.py"], ["*test*"], ["**/*.pyi"], ["*.pyi"], ["**/a/**"],
             ["sub/*.py", "**/b.py"], ["*/*/*.py"], ["**/x.py", "test_*.py", "*_test.py"], ["*"], ["a/*"], ["**/sub/*.py"]]
+
+
+# the full doublestar syntax the code accepts: classes, ranges, negated classes ([!..] and [^..]), alternatives (nested, with
+# wildcards and classes inside, with an empty alternative), escapes — without '/' (file name at any depth) and as paths
+X_INCLUDES = [["**/*.{py,pyi}"], ["{src,pkg,sub}/**/*.py", "*.py"], ["[a-m]*.py"], ["**/[!t]*.py"], ["*.py{,i}"], ["{a,b,ab}.py", "**/s.pyi"],
+              ["[^t]*.py"], ["**/{a,b}/**"], ["{?,??}.py"], ["*.[pP][yY]"], ["{sub,src}/{a,b}.py", "[a-c].py"], ["**/{[a-c],main}.py"]]
+X_EXCLUDES = [["{test,spec}_*.py"], ["[!a-z]*.py"], ["[^a-z]*"], ["**/{tests,migrations}/**"], ["{a,b}.py", "t?st_[a-z].py"], ["*_{test,x_test}.py"],
+              ["a{_test,}.py"], ["[!a]*"], ["[a-b].py", "{c,x}.py"], ["**/{sub,src}/[!a]*.py"], ["{sub,a}/*.py"], ["*.py[ci]"],
+              ["{a,{b,c}}.py"], ["\\*.py", "[t]est_*"], ["{test_*,*_test}.py"], ["[^.]*_test.py", "**/[st]*/[!b]*"]]
+INCLUDES = INCLUDES + X_INCLUDES
+EXCLUDES = EXCLUDES + X_EXCLUDES
 
 
 def gen_tree(rng, depth, thorough=False, own=None):
@@ -208,58 +219,129 @@ VOCAB_NAMES = ["a.py", "test_a.py", "a_test.py", "sub/a.py", "sub/test_a.py", "s
                "pkg/tests/t.py", "test_.py", "_test.py", "a.pyi", "a.pyc", "a.p", "a."]
 
 
-def glob_differential(ck, thorough):
-    pl, nl = (5, 5) if thorough else (4, 5)
-    pats = list(words("a*?/.", pl)) + VOCAB_PATTERNS
-    names = [n for n in words("ab/.", nl)] + VOCAB_NAMES
-    res = lib.driver([{"op": "globgrid", "patterns": pats, "paths": names}])[0]
+# atoms of the full syntax; patterns are all sequences of one or two atoms (thorough: three), so that every new construct stands
+# first, last, next to a star, a doublestar, a separator, another class / group
+X_ATOMS = ["a", "b", "*", "?", "/", ".", "**", "[a]", "[!a]", "[^a]", "[ab]", "[a-b]", "[!a-b]", "[^.b]", "[!.]", "\\*", "\\a", "\\[", "[\\]]",
+           "[a\\-]", "[-a]", "[a-]", "[!!]", "[,]", ",", "}", "{a,b}", "{a,}", "{,a}", "{a}", "{}", "{a,b*}", "{*,a}", "{**,a}", "{a/b,b}",
+           "{a,{b,.}}", "{a,b}{.,/}", "{[ab],?}", "{a/,}", "a{,b}", ".{b,}", "?{}", "[a]{,*}", "{*a,b/}", "{a\\,b,.}", "{**/,a}", "{[!a],b.}",
+           "{a,b}/", "/{a,b}", "**/{a,b}", "{a,b}/**", "{", "[", "[a", "\\"]
+X_VOCAB_PATTERNS = ["{test,spec}_*.py", "*.{py,pyi}", "*.py{,i}", "[!_]*.py", "[^_]*.py", "[!a-z]*.py", "**/{tests,testing}/**", "{src,lib}/**/*.py",
+                    "test_[0-9]*.py", "[a-z]*_test.py", "\\*.py", "**/[!t]*.py", "src/{a,main}.py", "{src,lib}/{a,b}.py", "**/{a,x/b}", "*.p[!y]*",
+                    "{test_{a,b},spec_*}.py", "{*_test,test_*}.py", "**/{.h,a}.py", "[.]h.py", "?[!a-z]*.py", "?[!x]b.py", "a[!b]c", "*[+-9]*", "{a,b}/[!x]/c",
+                    "**/*.p{y,yi,yc}", "__pycache__/*.py[co]", "{**/migrations,tests}/**", "a{b,c}c", "{a,ab}{c,bc}", "[a-a]", "[b-a]", "[a-c-e]", "[]a]", "[!]"]
+X_VOCAB_NAMES = ["a*", "*", "[", "a,b", "a}", "a-", "-", "!", "a/,", ",", "a]", "]", "a/-/b", "^", "\\", "{a,b}", "a/b}", "*.py", "sub/*.py", "test_1.py",
+                 "sub/test_9.py", "spec_a.py", "sub/spec_a.py", "sub/deep/spec_a.py", "A.py", "sub/A.py", "_a.py", "sub/_a.py", "a.pyc", "a.pyo",
+                 "tests/a.py", "x/testing/y/a.py", "x/b", "a/x/b", "a/b.py", "ab/b.py", "a/c", "a+c", "a/x/c", "b/y/c", "abc", "abbc", "acc"]
+
+
+X_CORE = ["a", "*", "?", "/", ".", "**", "[!a]", "[^a]", "[a-b]", "{a,b}", "{a,{b,.}}", "a{,b}", "\\*"]
+
+
+def x_patterns(thorough):
+    """quick: every atom alone, and before and after every core atom; thorough: all pairs and the triples with a plain atom"""
+    pats = set(X_VOCAB_PATTERNS) | set(X_ATOMS)
+    for x in X_ATOMS:
+        for y in (X_ATOMS if thorough else X_CORE):
+            pats.add(x + y)
+            pats.add(y + x)
+    if thorough:
+        for t in itertools.product(X_ATOMS, repeat=3):
+            if sum(len(x) > 1 for x in t) <= 2:
+                pats.add("".join(t))
+    return sorted(p for p in pats if any(ch in p for ch in "[]{}\\"))
+
+
+def popcount(x):
+    return bin(x).count("1")
+
+
+def glob_grid_jobs(tag, pats, names):
     chunk = 48      # results are packed 48 names per number (big numbers are slow to print in Coq)
     chunks = [names[i:i + chunk] for i in range(0, len(names), chunk)]
     shard = 140
     jobs = []
     for off in range(0, len(pats), shard):
+        part = pats[off:off + shard]
+        plain = [q for q in part if "[" not in q]          # without a class nothing can meet a separator
         body = ("Definition chunks := %s.\nDefinition nok := map (map name_ok) chunks.\n"
-                "Definition rows := map (fun p => (map (glob_row p) chunks, pat_ok p)) %s.\n"
-                "Eval vm_compute in nok.\nEval vm_compute in rows.\n") % (clist([cstrs(c) for c in chunks]), cstrs(pats[off:off + shard]))
-        jobs.append(("C18_glob_%d" % off, REQ, body))
-    outs = lib.coq_eval_many(jobs, workers=16)
-    nok, rows = None, []
-    for out in outs:
+                "Definition rows := map (fun p => xrow p chunks) %s.\nDefinition rows_e := map (fun p => xrow_e p chunks) %s.\n"
+                "Eval vm_compute in nok.\nEval vm_compute in rows.\nEval vm_compute in rows_e.\n") % (
+                    clist([cstrs(c) for c in chunks]), cstrs(plain), cstrs([q for q in part if "[" in q]))
+        jobs.append(("C18_glob_%s_%d" % (tag, off), REQ, body))
+    return jobs
+
+
+def glob_grid(ck, tag, pats, names, outs, res, st):
+    """doublestar.Match against Cli/GlobX.v [xglob_str] on pats x names; compared where xpat_ok, name_ok and no class can meet a '/'."""
+    chunk, shard = 48, 140
+    chunks = [names[i:i + chunk] for i in range(0, len(names), chunk)]
+    nok, rows = None, {}
+    for off, out in zip(range(0, len(pats), shard), outs):
         vals = lib.parse_coq_values(out)
         nok = [b for ch in vals[0] for b in ch]
-        rows += vals[1]
+        part = pats[off:off + shard]
+        for q, (cc, pok) in zip([q for q in part if "[" not in q], vals[1]):
+            rows[q] = (cc, None, pok)
+        for q, (cc, ee, pok) in zip([q for q in part if "[" in q], vals[2]):
+            rows[q] = (cc, ee, pok)
     mask = 0
     for ok in nok:
         mask = (mask << 1) | (1 if ok else 0)
-    n_ok = n_skip = mism = pairs = 0
-    for p, go_row, bad, (coq_chunks, pok) in zip(pats, res["rows"], res["bad_pattern"], rows):
+
+    def unpack(cs):
+        v = 0
+        for ch, x in zip(chunks, cs):
+            v = (v << len(ch)) | x
+        return v
+    for p, go_row, bad in zip(pats, res["rows"], res["bad_pattern"]):
+        coq_chunks, eat_chunks, pok = rows[p]
         if not pok:
-            n_skip += 1
+            st["glob_patterns_outside_subset"] += 1
             continue
-        n_ok += 1
-        pairs += bin(mask).count("1")
+        st["glob_patterns_in_subset"] += 1
+        if any(ch in p for ch in "[]{}\\"):
+            st["glob_patterns_full_syntax"] += 1
         if bad:
-            ck.broken_ties.append("glob: doublestar rejects pattern %r that Glob.v's pat_ok admits" % p)
+            ck.broken_ties.append("glob: doublestar rejects pattern %r that GlobX.v's xpat_ok admits" % p)
             continue
-        coq_row = 0
-        for ch, v in zip(chunks, coq_chunks):
-            coq_row = (coq_row << len(ch)) | v
-        diff = (int(go_row) ^ coq_row) & mask
+        coq_row = unpack(coq_chunks)
+        eat = unpack(eat_chunks) & mask if eat_chunks is not None else 0
+        st["glob_pairs"] += popcount(mask & ~eat)
+        st["glob_class_vs_separator_pairs"] += popcount(eat)
+        st["glob_class_vs_separator_differ"] += popcount((int(go_row) ^ coq_row) & eat)
+        diff = (int(go_row) ^ coq_row) & mask & ~eat
         if diff:
-            mism += 1
+            st["glob_mismatches"] += 1
             i = len(names) - diff.bit_length()
-            if mism <= 3:
-                ck.broken_ties.append("glob: doublestar.Match(%r, %r) = %s but Cli/Glob.v says %s" % (
+            if st["glob_mismatches"] <= 3:
+                ck.broken_ties.append("glob: doublestar.Match(%r, %r) = %s but Cli/GlobX.v says %s" % (
                     p, names[i], bool((int(go_row) >> (len(names) - 1 - i)) & 1), bool((coq_row >> (len(names) - 1 - i)) & 1)))
-    return {"glob_patterns_in_subset": n_ok, "glob_patterns_outside_subset": n_skip, "glob_names": bin(mask).count("1"),
-            "glob_pairs": pairs, "glob_mismatches": mism}
+    st["glob_names_" + tag] = popcount(mask)
+
+
+def glob_differential(ck, thorough):
+    st = {"glob_patterns_in_subset": 0, "glob_patterns_outside_subset": 0, "glob_patterns_full_syntax": 0, "glob_pairs": 0,
+          "glob_mismatches": 0, "glob_class_vs_separator_pairs": 0, "glob_class_vs_separator_differ": 0}
+    pl, nl = (5, 5) if thorough else (4, 5)
+    grids = [
+        # the syntax of Cli/Glob.v, exhaustively over a small alphabet, and the realistic vocabulary (both syntaxes)
+        ("plain", list(words("a*?/.", pl)) + VOCAB_PATTERNS, [n for n in words("ab/.", nl)] + VOCAB_NAMES + X_VOCAB_NAMES),
+        # classes, negated classes, alternatives, escapes in every position
+        ("full", x_patterns(thorough), [n for n in words("ab/.", 4)] + X_VOCAB_NAMES + VOCAB_NAMES[:12])]
+    res = lib.driver([{"op": "globgrid", "patterns": pats, "paths": names} for _, pats, names in grids])
+    jobs = [glob_grid_jobs(tag, pats, names) for tag, pats, names in grids]
+    outs = lib.coq_eval_many([j for js in jobs for j in js], workers=16)
+    for (tag, pats, names), js, r in zip(grids, jobs, res):
+        glob_grid(ck, tag, pats, names, outs[:len(js)], r, st)
+        outs = outs[len(js):]
+    return st
 
 
 # ---------------------------------------------------------------------------------------
 # part B: CollectPythonFiles on real directory trees vs model vs spec
 # ---------------------------------------------------------------------------------------
 class Case:
-    __slots__ = ("tree_id", "root", "children", "cwd", "targets", "inc", "exc", "recursive", "kind", "impl", "model", "mabs", "spec")
+    __slots__ = ("tree_id", "root", "children", "cwd", "targets", "inc", "exc", "recursive", "kind", "impl", "model", "mabs", "spec", "known")
 
     def replay(self):
         return {"kind": "collect:" + self.kind, "tree": self.children, "root": self.root, "cwd": self.cwd, "targets": self.targets,
@@ -334,35 +416,116 @@ def eval_cases(cases):
     reqs = [{"op": "collect", "cwd": c.cwd, "targets": c.targets, "include": c.inc, "exclude": c.exc, "recursive": c.recursive}
             for c in cases]
     impl = lib.driver(reqs)
-    jobs, shard = [], 60
-    for off in range(0, len(cases), shard):
-        chunk = cases[off:off + shard]
-        defs, items = [], []
-        worlds = {}
-        for c in chunk:
-            if c.tree_id not in worlds:
-                worlds[c.tree_id] = "w%d" % c.tree_id
-                defs.append("Definition w%d := %s." % (c.tree_id, cnode(world_node(c.root, c.children))))
-            cwdn = [p for p in c.cwd.split("/") if p]
-            items.append("(run_case w%d %s %s %s %s %s, forallb pat_ok (%s ++ %s))" % (
-                c.tree_id, cstrs(cwdn), clist([cspath(t) for t in c.targets]), cbool(c.recursive), cstrs(c.inc), cstrs(c.exc),
-                cstrs(c.inc), cstrs(c.exc)))
-        jobs.append(("C18_collect_%d" % off, REQ, "\n".join(defs) + "\nDefinition cases := %s.\nEval vm_compute in cases.\n" % clist(items)))
-    vals = []
-    for out in lib.coq_eval_many(jobs, workers=16):
-        vals += lib.parse_coq_values(out)[0]
-    for c, r, v in zip(cases, impl, vals):
+    jobs, spans = [], []
+    # the cases on the big tree of part B2 print indices into the tree's file list (printing long paths is what costs in Coq)
+    big = [c for c in cases if c.kind.startswith("lattice")]
+    small = [c for c in cases if not c.kind.startswith("lattice")]
+    for group, shard in ((small, 60), (big, 30)):
+        for off in range(0, len(group), shard):
+            chunk = group[off:off + shard]
+            defs, items = [], []
+            worlds = {}
+            for c in chunk:
+                if c.tree_id not in worlds:
+                    worlds[c.tree_id] = "w%d" % c.tree_id
+                    defs.append("Definition w%d := %s." % (c.tree_id, cnode(world_node(c.root, c.children))))
+                    if group is big:
+                        defs.append("Definition root%d := %s.\nDefinition cands%d := %s." % (
+                            c.tree_id, cstrs([p for p in c.root.split("/") if p]), c.tree_id, clist([cstrs(f) for f in all_files(c.children)])))
+                cwdn = [p for p in c.cwd.split("/") if p]
+                args = "%s %s %s %s %s" % (cstrs(cwdn), clist([cspath(t) for t in c.targets]), cbool(c.recursive), cstrs(c.inc), cstrs(c.exc))
+                if group is big:
+                    items.append("(run_case_idx w%d root%d cands%d %s, forallb xpat_ok (%s ++ %s))" % (
+                        c.tree_id, c.tree_id, c.tree_id, args, cstrs(c.inc), cstrs(c.exc)))
+                else:
+                    items.append("(run_case w%d %s, forallb xpat_ok (%s ++ %s))" % (c.tree_id, args, cstrs(c.inc), cstrs(c.exc)))
+            jobs.append(("C18_collect_%s%d" % ("big" if group is big else "", off), REQ,
+                         "\n".join(defs) + "\nDefinition cases := %s.\nEval vm_compute in cases.\n" % clist(items)))
+            spans.append(chunk)
+    byid = {}
+    for chunk, out in zip(spans, lib.coq_eval_many(jobs, workers=16)):
+        for c, v in zip(chunk, lib.parse_coq_values(out)[0]):
+            byid[id(c)] = v
+    for c, r in zip(cases, impl):
+        v = byid[id(c)]
         c.impl = r
-        m, mabs, spec, pok = v      # Coq prints ((a, b, c), d) as (a, b, c, d)
-        c.model = None if m is None else [path_str(x) for x in m[1]]
-        c.mabs = None if mabs is None else [loc_str(x) for x in mabs[1]]
-        c.spec = sorted({loc_str(x) for x in spec})
+        c.known = False
+        if c.kind.startswith("lattice"):
+            mabs, spec, pok = v      # Coq prints ((a, b), c) as (a, b, c)
+            files = ["/".join([c.root] + list(f)) for f in all_files(c.children)]
+            if any(i >= len(files) for i in (mabs[1] if mabs is not None else []) + spec):
+                raise RuntimeError("the model or the specification selects something that is no file of the tree: %r %r" % (c.inc, c.exc))
+            c.model = None
+            c.mabs = None if mabs is None else [files[i] for i in mabs[1]]
+            c.spec = sorted({files[i] for i in spec})
+        else:
+            m, mabs, spec, pok = v      # Coq prints ((a, b, c), d) as (a, b, c, d)
+            c.model = None if m is None else [path_str(x) for x in m[1]]
+            c.mabs = None if mabs is None else [loc_str(x) for x in mabs[1]]
+            c.spec = sorted({loc_str(x) for x in spec})
         if not pok:
-            raise RuntimeError("harness pattern outside the modelled glob subset: %r %r" % (c.inc, c.exc))
+            raise RuntimeError("harness pattern outside the modelled glob subset (xpat_ok): %r %r" % (c.inc, c.exc))
+
+
+def rels_below_targets(c, f):
+    """The paths under which the file at absolute location f is seen from the targets of case c (relative to each directory
+    target above it; its name for a file target)."""
+    out = []
+    for t in c.targets:
+        tl = abs_loc(c.cwd, t)
+        if f == tl:
+            out.append(os.path.basename(f))
+        elif f.startswith(tl.rstrip("/") + "/"):
+            out.append(f[len(tl.rstrip("/")) + 1:])
+    return out
+
+
+def class_separator_cases(ck, pending, stats):
+    """Known finding C18-G4, kept narrow: a selection that differs from the specification is attributed to it only when, for every
+    file in the difference, (a) Cli/GlobX.v [eats_path] says that some pattern of the lists can bring a character class against a '/'
+    of the path under which a target sees the file, and (b) the implementation's verdict is exactly what doublestar.Match itself
+    (asked through the driver) gives for file_reader.go's rule 'whole path, or — pattern without slash — base name'."""
+    if not pending:
+        return []
+    items, per_case = [], []
+    reqs = []
+    for c, what, got in pending:
+        diff = sorted(set(got) ^ set(c.spec))
+        rels = [(f, rel) for f in diff for rel in rels_below_targets(c, f)]
+        per_case.append((diff, rels))
+        items.append("run_eats %s %s" % (cstrs(c.inc + c.exc), clist([cstrs(rel.split("/")) for _, rel in rels])))
+        names = sorted({rel for _, rel in rels} | {os.path.basename(rel) for _, rel in rels})
+        reqs.append({"op": "globgrid", "patterns": c.inc + c.exc, "paths": names or ["x"]})
+    vals = lib.parse_coq_values(lib.coq_eval("C18_eats", REQ, "Eval vm_compute in %s.\n" % clist(items)))[0]
+    grids = lib.driver(reqs)
+    rest = []
+    for (c, what, got), (diff, rels), eats, grid, rq in zip(pending, per_case, vals, grids, reqs):
+        names = rq["paths"]
+
+        def ds(pi, name):
+            return bool((int(grid["rows"][pi]) >> (len(names) - 1 - names.index(name))) & 1)
+
+        def hit(pats, off, rel):
+            return any(ds(off + i, rel) or ("/" not in q and ds(off + i, os.path.basename(rel))) for i, q in enumerate(pats))
+        ok = bool(diff)
+        for f in diff:
+            mine = [(rel, e) for (g, rel), e in zip(rels, eats) if g == f]
+            library_says = any((not c.inc or hit(c.inc, 0, rel)) and not hit(c.exc, len(c.inc), rel) for rel, _ in mine)
+            if not any(e for _, e in mine) or library_says != (f in got):
+                ok = False
+        e = ck.match_known({"part": "collect", "cause": "class-matches-separator"}) if ok else None
+        if e:
+            c.known = True
+            stats["known_class_separator_cases"] = stats.get("known_class_separator_cases", 0) + 1
+            ck.known_finding(e)
+        else:
+            rest.append((c, what, got))
+    return rest
 
 
 def decide_cases(ck, cases, stats):
     nviol = ntie = 0
+    pending = []
     for c in cases:
         r = c.impl
         if "error" in r:
@@ -398,6 +561,9 @@ def decide_cases(ck, cases, stats):
             dup = sorted({x for x in locs if locs.count(x) > 1})[:4]
             what = "a file is collected more than once for targets %s (cwd %s): %s" % (c.targets, c.cwd, [os.path.relpath(x, c.root) for x in dup])
         if what:
+            if got != c.spec and any("[" in q for q in c.inc + c.exc):
+                pending.append((c, what, got))      # perhaps the known behaviour of a class against a path separator: decided below
+                continue
             nviol += 1
             if nviol <= 3:
                 rp = c.replay()
@@ -407,11 +573,17 @@ def decide_cases(ck, cases, stats):
         if got:
             stats["nonempty"] += 1
         stats["kinds"][c.kind] = stats["kinds"].get(c.kind, 0) + 1
-        if c.model != r["files"]:
+        if (c.mabs != locs) if c.kind.startswith("lattice") else (c.model != r["files"]):
             ntie += 1
             if ntie <= 3:
                 ck.broken_ties.append("CollectPythonFiles output differs from Cli/FileSel.v although the selected set is right: targets %s cwd %s: impl %s model %s"
                                       % (c.targets, c.cwd, r["files"][:6], (c.model or [])[:6]))
+    for c, what, got in class_separator_cases(ck, pending, stats):
+        nviol += 1
+        if nviol <= 3:
+            rp = c.replay()
+            rp.update(impl=c.impl["files"], spec=c.spec, model=c.model)
+            ck.violation(what, rp)
     # spelling invariance, directly on the implementation: same directory, same patterns => same set
     by = {}
     for c in cases:
@@ -436,6 +608,96 @@ def decide_cases(ck, cases, stats):
 
 
 # ---------------------------------------------------------------------------------------
+# part B2: the pattern language, systematically: every construct x without/with '/' x include/exclude x file depth 0..3 x target level
+# ---------------------------------------------------------------------------------------
+LATTICE_NAMES = ["core.py", "Core.py", "spec_core.py", "test_core.py", "conftest.py", "a1.py", "b2.py", "c3.py", "_priv.py", "s.pyi",
+                 "mod_test.py", "*.py", "{x}.py", "a,b.py", "[k].py", "notes.txt"]
+LATTICE_DIRS = [(), ("pkg",), ("pkg", "deep"), ("pkg", "deep", "er"), ("a",), ("tests",)]
+LATTICE_TARGETS = [(), ("pkg",), ("pkg", "deep"), ("pkg", "deep", "er"), ("a",)]
+# patterns without '/' : they speak about the file name, at any depth
+LATTICE_SLASHLESS = [
+    "test_*.py", "?[0-9].py", "[ab][12].py", "[a-c][1-3].py", "[A-Z]*.py", "[a-z]*.py",                   # star, ?, class, range
+    "[!a-z]*.py", "[^a-z]*.py", "[!_]*.py", "[^_a-b]*", "*[!y]", "*_[!t]*.py", "[!a-zA-Z]*", "[^*_]*.py",      # negated class, both spellings
+    "{test,spec}_*.py", "{core,conftest}.py", "*.{py,pyi}", "*.py{,i}", "{test_{core,x},spec_*}.py", "{[ab][12],Core}.py",     # alternatives
+    "{?1,??_test}.py", "*_{test,spec}.py", "{[!a-z]*,conf*}.py", "mod_{test,spec}.p{y,yi}", "{core,Core,c3}.{py,txt}", "{s,t}.pyi",
+    "{*_test,test_*}.py", "c{ore,3,onftest}.py", "{a,b,c}[1-3].py", "{[!c]*,c3}.py",
+    "\\*.py", "\\{x\\}.py", "a\\,b.py", "{a\\,b,core}.py", "[\\[]k[\\]].py", "{\\*,\\{x\\}}.py", "[*]*",                                # escapes
+    "**", "?[!a-z]b2.py",                                          # "**" alone; a class that can stand against the '/' of a/b2.py (C18-G4)
+]
+# patterns with '/' : they speak about the path below the target
+LATTICE_PATHS = [
+    "pkg/{core,Core}.py", "pkg/**/{test,spec}_*.py", "**/{deep,tests}/**", "{pkg,tests}/**/*.py", "**/[!a-z]*.py", "**/deep/[a-c]?.py",
+    "pkg/*/[^s]*.py", "{pkg/deep,a}/*.py", "**/{test,spec}_*.py", "*/{a1,b2}.py", "**/\\*.py", "{**/er,a}/[a-c][1-3].py", "**/{a,er}/**",
+    "[ap]*/**/[!_]*.py", "{a,pkg}/{core.py,deep/core.py}", "deep/{er/c,c}*.py", "**/[a-z]*/{s,t}.pyi", "{a,*/deep}/conftest.py",
+]
+
+
+def lattice_cases(ck, base):
+    """One tree with the same file names in every directory (depths 0..3), and for every pattern: as the only exclude and as the only
+    include, for every target level — so that the same file is judged from the project root, from directories in between and from
+    its own directory."""
+    children = []
+
+    def build(prefix):
+        cs = [("F", n) for n in LATTICE_NAMES]
+        for d in LATTICE_DIRS:
+            if len(d) == len(prefix) + 1 and d[:len(prefix)] == prefix:
+                cs.append(("D", d[-1], build(d)))
+        return sorted(cs, key=lambda c: c[1].encode())
+    children = build(())
+    root = os.path.join(base, "lattice", "proj")
+    materialize(root, children)
+    cases = []
+    k = 0
+    for pat in LATTICE_SLASHLESS + LATTICE_PATHS:
+        for role in ("exclude", "include"):
+            inc, exc = (["**/*.py", "*.pyi"], [pat]) if role == "exclude" else ([pat], [])
+            # a pattern with '/' speaks about the path below the target: the project root, one level down, and a leaf
+            for tp in (LATTICE_TARGETS if "/" not in pat else [(), ("pkg",), ("a",)]):
+                k += 1
+                tdir = os.path.join(root, *tp) if tp else root
+                # the target spelled from the project root and as "." from inside, in turn
+                cwd, sp = (root, "/".join(tp) if tp else ".") if k % 2 else (tdir, ".")
+                c = Case()
+                c.tree_id, c.root, c.children, c.cwd, c.targets = 100000, root, children, cwd, [sp]
+                c.inc, c.exc, c.recursive, c.kind = inc, exc, True, "lattice-" + role
+                cases.append(c)
+    return cases
+
+
+def lattice_same_verdict(ck, cases, stats):
+    """Directly on the implementation: with patterns without '/', a file is selected through one target iff it is selected through
+    every other target above it (Props/C18.v C18_slashless_lists_same_verdict_at_every_depth)."""
+    by = {}
+    for c in cases:
+        if c.kind.startswith("lattice") and isinstance(c.impl, dict) and not c.impl.get("failed", True) and not c.known:
+            pat = (c.exc if c.kind == "lattice-exclude" else c.inc)[0]
+            if "/" not in pat:
+                by.setdefault((pat, c.kind), []).append(c)
+    nviol = npairs = 0
+    for (pat, kind), cs in sorted(by.items()):
+        sel = [(abs_loc(c.cwd, c.targets[0]), {abs_loc(c.cwd, p) for p in c.impl["files"]}, c) for c in cs]
+        if any(c.known for c in cs):
+            continue
+        for ta, sa, ca in sel:
+            for tb, sb, cb in sel:
+                if ta != tb and tb.startswith(ta + "/"):
+                    npairs += 1
+                    below = {f for f in sa if f.startswith(tb + "/")}
+                    if below != sb and nviol < 3:
+                        nviol += 1
+                        f = sorted(below ^ sb)[0]
+                        rp = cb.replay()
+                        rp.update(other_cwd=ca.cwd, other_targets=ca.targets, file=f, pattern=pat,
+                                  selected_through={ca.targets[0] + " (cwd " + ca.cwd + ")": f in sa, cb.targets[0] + " (cwd " + cb.cwd + ")": f in sb})
+                        ck.violation("%s pattern %r (no '/': it speaks about the file name): %s is %s when the target is %s and %s when the target is %s"
+                                     % (kind[8:], pat, os.path.relpath(f, ca.root), "selected" if f in sa else "not selected", os.path.relpath(ta, ca.root),
+                                        "selected" if f in sb else "not selected", os.path.relpath(tb, ca.root)), rp)
+    stats["lattice_target_pairs"] = npairs
+    stats["disagreements"] += nviol
+
+
+# ---------------------------------------------------------------------------------------
 # part C: shouldIncludeFile / shouldSkipDirectory directly
 # ---------------------------------------------------------------------------------------
 def unit_differential(ck, rng, n, d_inc, d_exc):
@@ -455,19 +717,22 @@ def unit_differential(ck, rng, n, d_inc, d_exc):
                                                    for r, i, e in zip(rels, incs, excs)]
     res = lib.driver(reqs)
     body = "Eval vm_compute in run_skipdirs %s.\nEval vm_compute in %s.\n" % (
-        cstrs(names), clist(["run_include %s %s %s" % (cstrs(r), cstrs(i), cstrs(e)) for r, i, e in zip(rels, incs, excs)]))
+        cstrs(names), clist(["run_include_e %s %s %s" % (cstrs(r), cstrs(i), cstrs(e)) for r, i, e in zip(rels, incs, excs)]))
     vals = lib.parse_coq_values(lib.coq_eval("C18_unit", REQ, body))
     bad = 0
     for nme, a, b in zip(names, res[0]["skip"], vals[0]):
         if a != b:
             bad += 1
             ck.broken_ties.append("shouldSkipDirectory(%r) = %s but the model says %s" % (nme, a, b))
-    for r, i, e, a, b in zip(rels, incs, excs, res[1:], vals[1]):
-        if a.get("include") != b:
+    skipped = 0
+    for r, i, e, a, (b, eat) in zip(rels, incs, excs, res[1:], vals[1]):
+        if a.get("include") != b and eat:
+            skipped += 1        # a class can meet a separator of this path: outside the compared domain (known finding C18-G4)
+        elif a.get("include") != b:
             bad += 1
             if bad <= 4:
                 ck.broken_ties.append("shouldIncludeFile(%r, %s, %s) = %s but the model says %s" % ("/".join(r), i, e, a.get("include"), b))
-    return len(names) + n, bad
+    return len(names) + n, bad, skipped
 
 
 # ---------------------------------------------------------------------------------------
@@ -531,6 +796,26 @@ def e2e(ck, rng, n_trees, stats, d_inc, d_exc, thorough):
                 tg_sets.append((os.path.join(root, *d) if d else root, [".", "/".join(rng.choice(below)[len(d):])]))
             for cwd, tg in tg_sets:
                 runs.append((ti, root, children, cwd, tg, inc, exc, rec, cfgpath))
+    # the full pattern syntax from configuration files, on one tree with the same names at depths 0..3, judged from three target levels
+    xnames = ["core.py", "Core.py", "spec_core.py", "test_core.py", "conftest.py", "a1.py", "b2.py", "_priv.py", "s.pyi", "mod_test.py", "notes.txt"]
+    xfiles = [("F", n) for n in xnames]
+    xchildren = sorted(xfiles + [("D", "pkg", sorted(xfiles + [("D", "deep", sorted(xfiles, key=lambda c: c[1].encode()))], key=lambda c: c[1].encode()))],
+                       key=lambda c: c[1].encode())
+    xroot = os.path.join(base, "ex", "proj")
+    materialize(xroot, xchildren)
+    xcfgs = [(os.path.join(base, "ex", "cfg_a.toml"), "-c", ["**/*.py"], ["{test,spec}_*.py", "[!a-z]*.py"]),
+             (os.path.join(xroot, ".pyscn.toml"), ".pyscn.toml", ["{core,[ab][12]}.py", "pkg/**/[^cC]*.py", "*.py{,i}"], ["*_{test,spec}.py", "**/deep/[a-b]?.py"]),
+             (os.path.join(xroot, "pyproject.toml"), "pyproject.toml", ["**/{core,conftest,s}.{py,pyi}"], ["pkg/{core,x}.py", "[^a-z]*"])]
+    if not thorough:
+        xcfgs = [xcfgs[0], xcfgs[1 + rng.randrange(2)]]
+    for cfg, how, inc, exc in xcfgs:
+        pre = "tool.pyscn." if how == "pyproject.toml" else ""
+        cfg_texts[cfg] = "%s[%sanalysis]\nrecursive = true\ninclude_patterns = %s\nexclude_patterns = %s\n" % (
+            "[project]\nname = \"x\"\n\n" if how == "pyproject.toml" else "", pre, json.dumps(inc), json.dumps(exc))
+        stats["e2e_config_" + how] = stats.get("e2e_config_" + how, 0) + 1
+        for cwd, tg in ((xroot, ["."]), (os.path.join(xroot, "pkg"), ["."]), (xroot, ["pkg/deep"])):
+            runs.append((99, xroot, xchildren, cwd, tg, inc, exc, True, cfg))
+            stats["e2e_full_syntax_runs"] = stats.get("e2e_full_syntax_runs", 0) + 1
     # specification for every run
     items, defs, seen = [], [], set()
     for ti, root, children, cwd, tg, inc, exc, rec, cfgpath in runs:
@@ -546,7 +831,7 @@ def e2e(ck, rng, n_trees, stats, d_inc, d_exc, thorough):
         spec = sorted({loc_str(x) for x in spec})
         rep = os.path.join(cwd, ".pyscn")
         shutil.rmtree(rep, ignore_errors=True)
-        explicit = bool(cfgpath) and os.path.basename(cfgpath) == "cfg.toml"
+        explicit = bool(cfgpath) and os.path.basename(cfgpath) not in (".pyscn.toml", "pyproject.toml")
         args = ["analyze", "--json", "--no-open", "--select", "complexity", "--min-complexity", "1"] + (["-c", cfgpath] if explicit else []) + tg
         if cfgpath:
             with open(cfgpath, "w") as f:
@@ -748,12 +1033,14 @@ def main(tier):
             d_inc, d_exc = gen_const("filesel_default_include"), gen_const("filesel_default_exclude")
             gstats = glob_differential(ck, thorough)
             stats["evaluations"] += gstats["glob_pairs"]
-            n_unit, bad = unit_differential(ck, rng, 3000 if thorough else 600, d_inc, d_exc)
+            n_unit, bad, stats["unit_class_separator_skipped"] = unit_differential(ck, rng, 3000 if thorough else 600, d_inc, d_exc)
             stats["evaluations"] += n_unit
             stats["disagreements"] += bad + gstats["glob_mismatches"]
             cases = make_cases(rng, ck, 400 if thorough else 70, 14 if thorough else 9, thorough, d_inc, d_exc)
+            cases += lattice_cases(ck, lib.fresh_dir("c18_lattice"))
             eval_cases(cases)
             decide_cases(ck, cases, stats)
+            lattice_same_verdict(ck, cases, stats)
             e2e(ck, rng, 15 if thorough else 5, stats, d_inc, d_exc, thorough)
             links_part(ck, rng, stats, d_inc, d_exc, thorough)
             cli_errors(ck, stats)
@@ -771,23 +1058,42 @@ def main(tier):
     ck.cov.update({
         "evaluations": stats["evaluations"],
         "distinct_nontrivial": len(distinct),
-        "rule": "glob: all patterns over {a,*,?,/,.} up to length %d x all names over {a,b,/,.} up to length 5 + realistic vocabulary, compared "
-                "where pat_ok; collect: generated directory trees (depth <= 4; hidden, vendor-like, test_*/*_test files at several depths, "
-                ".pyi, upper-case extensions, non-Python files) x pattern lists (defaults, **/*.py, *.py, src/**, ?.py, literals, ...) x "
+        "rule": "glob: doublestar.Match vs Cli/GlobX.v xglob — plain syntax: all patterns over {a,*,?,/,.} up to length %d x all names over "
+                "{a,b,/,.} up to length 5 + realistic vocabulary; full syntax: every atom of {classes [a] [ab] [a-b], negated [!a] [^a] [!a-b], "
+                "escapes \\* \\a \\[ [\\]], dashes, alternatives {a,b} {a,} {,a} {a} {} nested, with * ** / class inside, malformed [ { \\}, each "
+                "%s, x all names over {a,b,/,.} up to length 4 + names with metacharacters; compared where xpat_ok and no class can "
+                "meet a '/' (those pairs are counted). collect: generated directory trees (depth <= 4; hidden, vendor-like, test_*/*_test "
+                "files at several depths, .pyi, upper-case extensions, non-Python files) x pattern lists in both syntaxes (defaults, **/*.py, "
+                "*.py, src/**, ?.py, literals, {test,spec}_*.py, [!a-z]*.py, [^a-z]*, *.py{,i}, **/{a,b}/**, {a,{b,c}}.py, \\*.py, ...) x "
                 "spellings of one directory or file (., ./, rel, rel/, rel/., abs, abs/, //abs, ../x/rel, x/../rel, doubled slashes) from several "
-                "working directories, and target lists with overlaps, repeats, files and missing paths; decided against spec_list "
-                "(proved = sel_spec), implementation list compared with the model list; e2e: pyscn analyze --json --select complexity "
-                "with default and configured patterns. distinct = distinct (tree, cwd, targets, patterns, recursive)" % (5 if thorough else 4),
+                "working directories, and target lists with overlaps, repeats, files and missing paths; lattice: one tree with the same %d file "
+                "names (among them *.py, {x}.py, a,b.py, [k].py) in every directory at depth 0..3 x %d patterns without '/' and %d with '/' "
+                "(star, ?, class, range, both negations, alternatives nested / with wildcards / with classes / with an empty alternative, "
+                "escapes, **) x as the only exclude and as the only include x every target level (root, pkg, pkg/deep, pkg/deep/er, a; spelled "
+                "from the root and as '.' from inside): every (pattern, path) pair decided against spec_list, and for patterns without '/' "
+                "the same file must be selected through every target above it; all decided against spec_list (proved = sel_spec), "
+                "implementation list compared with the model list; e2e: pyscn analyze --json --select complexity with default patterns and "
+                "with patterns of both syntaxes from -c / .pyscn.toml / pyproject.toml (pyscn analyze has no pattern flags), the full-syntax "
+                "lists judged from the project root, from pkg and for the target pkg/deep. "
+                "distinct = distinct (tree, cwd, targets, patterns, recursive)" % (
+                    5 if thorough else 4, "alone, before and after every other atom, and in triples" if thorough else "alone and before and after each of 13 core atoms",
+                    len(LATTICE_NAMES), len(LATTICE_SLASHLESS), len(LATTICE_PATHS)),
         "input_distribution": dict(stats["kinds"], collect_cases=len(cases), nonempty_selections=stats["nonempty"],
                                    error_cases=stats["error_cases"], spelling_groups=stats.get("spelling_groups", 0),
-                                   e2e_runs=stats["e2e_runs"], e2e_empty=stats["e2e_empty"], **gstats),
+                                   e2e_runs=stats["e2e_runs"], e2e_empty=stats["e2e_empty"],
+                                   e2e_full_syntax_runs=stats.get("e2e_full_syntax_runs", 0),
+                                   lattice_patterns=len(LATTICE_SLASHLESS) + len(LATTICE_PATHS), lattice_target_pairs=stats.get("lattice_target_pairs", 0),
+                                   known_class_separator_cases=stats.get("known_class_separator_cases", 0),
+                                   unit_class_separator_skipped=stats.get("unit_class_separator_skipped", 0),
+                                   collect_cases_full_syntax=sum(1 for c in cases if any(ch in q for q in c.inc + c.exc for ch in "[]{}\\")), **gstats),
         "disagreements_checked": stats["disagreements"],
     })
     ck.trusted += ["Coq 8.16.1 kernel, vm_compute for model and spec evaluation",
                    "translator /verif/translator gen_files.go (skip list, Python extensions, default include/exclude/recursive)",
-                   "hand-written models Cli/Glob.v (doublestar v4.10.0 Match on the pat_ok subset) and Cli/FileSel.v "
+                   "hand-written models Cli/GlobX.v (doublestar v4.10.0 Match: full pattern syntax, on the xpat_ok domain and where no class meets "
+                   "a separator; = Cli/Glob.v on patterns without [ ] { } \\, proved) and Cli/FileSel.v "
                    "(service/file_reader.go; filepath.Clean/Join/Abs modelled, filepath.Rel(dir, Join(dir, r)) = r and filepath.Walk "
                    "order assumed), bound to the code by this differential test",
                    "file system without symlinks, unreadable entries or non-ASCII names; every `x/..` in a spelling goes through an existing directory"]
-    ck.finish(assumptions=["targets exist or the run fails as a whole", "patterns within the modelled doublestar subset (pat_ok)",
+    ck.finish(assumptions=["targets exist or the run fails as a whole", "patterns within the compared doublestar domain (xpat_ok: well-formed, none of match.go's end-of-name quirks)",
                            "no symbolic links; names are ASCII without '/'", "a file argument is spelled with the file name last"])
